@@ -77,6 +77,9 @@ def correspond(ctx):
             # singular G'W^-2 G on every call
             m_ = rng.randint(2, 5)
             pr = PR.planted_conelp(rng, 'optimal', n=rng.randint(2, min(4, m_)), dims={'l': m_, 'q': [], 's': []}, p=rng.randint(1, 2), free=rng.randint(1, 2))
+        elif kind == 'qp' and i % 3 == 1:
+            # more variables than cone rows plus equality constraints: the rank assumption Rank([P; A; G]) = n holds through P only
+            pr = PR.planted_qp_few(rng)
         else:
             pr = PR.planted_conelp(rng, 'optimal' if kind == 'qp' else kind, P_rank=(rng.randint(0, 2) if kind == 'qp' else None))
         w = pr.wit
